@@ -179,6 +179,94 @@ def replay_h_column_filter_partition(a0, a1, p, op1, v1, pne, vp, shape):
         shutil.rmtree(d, ignore_errors=True)
 
 
+# ------------------------------------------------------- drill-style partitions (dirN columns) ---
+DRILL_LABELS = ["a", "b", "c"]
+
+
+class _DrillPF:
+    """what filter_row_groups reads from the handle of a drill-partitioned dataset"""
+
+    def __init__(self, rgs, cats):
+        from vf.pyshim.kit import SchemaShim
+        self.row_groups, self.cats = rgs, cats
+        self.columns = ["a"]
+        self.schema = SchemaShim()
+        self.partition_meta = {}
+        self.file_scheme = "drill"
+
+
+def _drill_rg(label, k):
+    from fastparquet import parquet_thrift
+    md = parquet_thrift.ColumnMetaData(type=2, path_in_schema=["a"], num_values=1, statistics=None)
+    return parquet_thrift.RowGroup(num_rows=1, columns=[
+        parquet_thrift.ColumnChunk(meta_data=md, file_path="%s/part.%d.parquet" % (label, k))])
+
+
+def h_drill_partition_filter(l0: int, l1: int, ic: int, op1: int, a0: int, nested: bool) -> bool:
+    """
+    pre: 0 <= l0 < 3 and 0 <= l1 < 3 and 0 <= ic < 3 and 0 <= op1 < 9
+    post: __return__
+    """
+    # a dataset partitioned drill-style (directories a/, b/, ...: column dir0) and one clause on dir0.  The rows a
+    # filtered read returns are those of the row groups the real filter_row_groups keeps (real path parsing) that the
+    # real _column_filter then selects; exact filtering keeps the rows of a row group iff its label satisfies the clause
+    l0, l1, ic, op1 = _pick(l0, 0, 2), _pick(l1, 0, 2), _pick(ic, 0, 2), _pick(op1, 0, 8)
+    labels = [DRILL_LABELS[l0], DRILL_LABELS[l1]]
+    const = DRILL_LABELS[ic]
+    if op1 >= 7:
+        const = [const]
+    clause = ("dir0", OPS[op1], const)
+    filters = [[clause]] if nested else [clause]
+    rgs = [_drill_rg(labels[0], 0), _drill_rg(labels[1], 1)]
+    pf = _DrillPF(rgs, {"dir0": sorted(set(labels))})
+    kept = api.filter_row_groups(pf, filters)
+    for k in range(2):
+        got = any(rgs[k] is o for o in kept)
+        if got:
+            out = ParquetFile._column_filter(_Self(pf.cats), Frame({"a": [a0]}, 1), filters)
+            got = bool(out[0])
+        if got != row_pred(OPS[op1], labels[k], const):
+            return False
+    return True
+
+
+def _pick(v, lo, hi):
+    for k in range(lo, hi + 1):
+        if v == k:
+            return k
+    raise ValueError(v)
+
+
+def replay_h_drill_partition_filter(l0, l1, ic, op1, a0, nested):
+    import tempfile, shutil
+    import pandas as pd
+    import fastparquet
+    labels = [DRILL_LABELS[l0], DRILL_LABELS[l1]]
+    const = DRILL_LABELS[ic]
+    if op1 >= 7:
+        const = [const]
+    clause = ("dir0", OPS[op1], const)
+    filters = [[clause]] if nested else [clause]
+    d = tempfile.mkdtemp(prefix="c13-")
+    try:
+        if labels[0] == labels[1]:
+            df = pd.DataFrame({"p": [labels[0], labels[0]], "a": [0, 1]})
+        else:
+            df = pd.DataFrame({"p": labels, "a": [0, 1]})
+        fastparquet.write(d, df, file_scheme="drill", partition_on=["p"], stats=False)
+        pf = fastparquet.ParquetFile(d)
+        out = pf.to_pandas(filters=filters, row_filter=True)
+        got = sorted(int(x) for x in out["a"])
+        want = sorted(k for k in range(2) if row_pred(OPS[op1], labels[k], const))
+        cnt = int(pf.count(filters=filters, row_filter=True))
+        if got != want or cnt != len(want):
+            return True, ("drill dataset with directories %r: to_pandas(filters=%r, row_filter=True) returns the rows "
+                          "a=%r (count()=%d), exact filtering gives a=%r" % (labels, filters, got, cnt, want))
+        return False, "exact"
+    finally:
+        shutil.rmtree(d, ignore_errors=True)
+
+
 def _replay_rows(rows, filters, flat):
     import tempfile, os, shutil
     import pandas as pd
